@@ -115,6 +115,10 @@ def main():
     emit(event="ready")
     action = case["action"]
     if action == "terminate":
+        for gid in case.get("pre_exit", ()):
+            # Gateway.exit() defers the waiting "to when group.terminate() is called"
+            gws[gid].exit()
+            emit(event="pre_exit", id=gid)
         t0 = time.monotonic()
         group.terminate(case["timeout"])
         emit(event="terminate_done", seconds=round(time.monotonic() - t0, 3), len_group=len(group))
